@@ -91,6 +91,25 @@ CHECKS = {
         "fuzz": [{"pkg": "props/lang", "target": "FuzzC09", "thorough": {"seconds": 300}}],
         "floors": {"quick": {"comments": 8000, "dangling": 2000, "old-modifiers": 3000, "include-expanded": 5000}},
     },
+    "C10": {
+        "level": "exploration",
+        "engine": "E1",
+        "needs_bins": [],
+        "technique": "property-based testing (rapid): metamorphic same-input-same-bytes relation over 12 in-process repetitions (fresh parser each time) and repeated E1 runs under a fixed schedule",
+        "level_text": ("For generated programs with wide map / struct literals (up to 9 keys), several split arguments and 0 or 2-4 injected independent type errors (including several bad entries "
+                       "inside one unordered literal): formatted text, compile error text, include-expanded source and call-graph JSON are computed 12 times and must be byte-identical; Go "
+                       "randomises map iteration per range statement, so an unsorted traversal over k >= 4 keys survives 11 repetitions with probability < 1e-10. Runtime part: the same program "
+                       "driven three times under a fixed FIFO schedule must give the same directory listing (fork ids) and the same per-fork _invocation files. Exploration."),
+        "level_note": "Separate OS processes are not compared (pointer- or time-dependent output would differ between in-process repetitions as well, because every repetition allocates afresh).",
+        "rule": ("rapid program generator (C09 configuration, collections up to 9 entries) x optional 2-4 ill-typed mutations; non-trivial: >= 8 key/value pairs in the text or >= 2 injected errors. "
+                 "Run part: C01 generator, non-trivial: >= 3 fork directories. Distinct by hash of the source."),
+        "assumptions": _SEM_ASSUME,
+        "units": [
+            U("props/lang", "TestC10Deterministic", (450, 10), (20000, 12)),
+            U("props/run", "TestC10Run", (250, 6), (4000, 6)),
+        ],
+        "floors": {"quick": {"multi-error": 800, "call-graph": 2000, "run": 1000}},
+    },
     "C11": {
         "level": "exploration",
         "engine": "E1",
